@@ -232,6 +232,8 @@ static rc::Gen<KV> gen_c05() {
         // occasionally a PBKDF2 output longer than 255 blocks (block index >= 256), with a small count
         size_t hk = std::get<4>(t);
         if ((mode == 4 || mode == 5) && (hk == 8161 || hk == 9000)) { pb_out = hk == 9000 ? 16390 : hk + 40; if (pb_count > 2) pb_count = 1; }
+        // rarely: more than 65536 blocks, so that the third byte of the 4-byte big-endian block index is used
+        if ((mode == 4 || mode == 5) && hk == 8159 && std::get<7>(t) % 160 == 0) { pb_out = 65537 * 32 + 9; pb_count = pb_count ? 1 : 0; }
         c["outlen"] = num(mode <= 1 ? std::get<4>(t) : (mode <= 5 ? pb_out : std::get<7>(t)));
         c["count"] = num(pb_count); c["reqs"] = numlist(std::get<6>(t)); c["declared"] = num(std::get<8>(t));
         return c; });
@@ -243,7 +245,7 @@ static bool classify_c05(const KV &c, std::vector<std::string> &tags) {
     bool nt = false;
     if (mode <= 1) { tags.push_back(outlen > 8160 ? "hkdf>limit" : outlen > 32 ? "hkdf-multiblock" : "hkdf<=1block"); nt = outlen > 32; }
     else if (mode <= 3) { uint64_t sum = 0; bool cross = false; for (uint64_t r : tolist(c, "reqs")) { if (sum <= 8160 && sum + r > 8160) cross = true; sum += r; } tags.push_back(cross ? "inc-crosses-limit" : "inc-below-limit"); nt = cross || sum > 32; }
-    else if (mode <= 5) { uint64_t cnt = tonum(c, "count"); tags.push_back(cnt == 0 ? "count=0" : cnt == 1 ? "count=1" : cnt == 2 ? "count=2" : cnt == 3 ? "count=3" : "count>3"); tags.push_back(outlen > 8160 ? "pbkdf2>255blocks" : outlen > 32 ? "pbkdf2-multiblock" : "pbkdf2<=1block"); nt = outlen > 32 || cnt >= 2; }
+    else if (mode <= 5) { uint64_t cnt = tonum(c, "count"); tags.push_back(cnt == 0 ? "count=0" : cnt == 1 ? "count=1" : cnt == 2 ? "count=2" : cnt == 3 ? "count=3" : "count>3"); if (outlen > 65536 * 32) tags.push_back("pbkdf2>65536blocks"); tags.push_back(outlen > 8160 ? "pbkdf2>255blocks" : outlen > 32 ? "pbkdf2-multiblock" : "pbkdf2<=1block"); nt = outlen > 32 || cnt >= 2; }
     else nt = true;
     return nt;
 }
